@@ -39,6 +39,8 @@ def expr_text(ast) -> str:
     k = ast[0]
     if k == "ref":
         return "$" + ast[1]
+    if k == "idx":
+        return "$" + ast[1] + "".join(f"[{i}]" for i in ast[2])
     if k == "num":
         return repr(ast[1])
     if k == "par":
@@ -53,6 +55,11 @@ def expr_eval(ast, env):
     k = ast[0]
     if k == "ref":
         return env[ast[1]]
+    if k == "idx":
+        v = env[ast[1]]
+        for i in ast[2]:
+            v = v[i]
+        return v
     if k == "num":
         return ast[1]
     if k == "par":
@@ -62,7 +69,7 @@ def expr_eval(ast, env):
 
 
 def expr_refs(ast):
-    if ast[0] == "ref":
+    if ast[0] in ("ref", "idx"):
         return [ast[1]]
     if ast[0] == "num":
         return []
@@ -94,10 +101,13 @@ def gen_graph(rng):
             nodes.append(Node(nm, "lit", v))
             lists.append(nm)
         elif r < 0.68 and anyv:
-            nodes.append(Node(nm, "ref", rng.choice(anyv)))
+            tgt = rng.choice(anyv if not lists or rng.random() < 0.7 else lists)
+            nodes.append(Node(nm, "ref", tgt))
+            if tgt in lists:
+                lists.append(nm)
         elif r < 0.76 and lists:
             tgt = rng.choice(lists)
-            val = next(x for x in nodes if x.name == tgt).payload
+            val = resolve_lit(nodes, tgt)
             idx = [rng.randrange(len(val))]
             if isinstance(val[idx[0]], list):
                 if rng.random() < 0.6:
@@ -105,8 +115,13 @@ def gen_graph(rng):
             nodes.append(Node(nm, "idx", (tgt, idx)))
             feats.add("indexed")
         elif r < 0.92 and numeric:
+            flat_lists = [x.name for x in nodes if x.kind == "lit" and isinstance(x.payload, list) and x.payload and all(isinstance(e, (int, float)) for e in x.payload)]
+
             def mk(depth=0):
                 q = rng.random()
+                if flat_lists and q < 0.2:
+                    ln = rng.choice(flat_lists)
+                    return ("idx", ln, [rng.randrange(len(next(x for x in nodes if x.name == ln).payload))])
                 if q < 0.45 or depth > 1:
                     return ("ref", rng.choice(numeric))
                 if q < 0.55:
@@ -117,7 +132,7 @@ def gen_graph(rng):
                 rhs = mk(depth + 1)
                 return (op, mk(depth + 1), rhs, rng.choice(["", " "]))
             ast = mk()
-            if not expr_refs(ast) or ast[0] in ("ref", "par"):
+            if not expr_refs(ast) or ast[0] in ("ref", "par", "idx"):
                 ast = ("+", ("ref", rng.choice(numeric)), ast if ast[0] != "ref" else ("num", 1), " ")
             nodes.append(Node(nm, "expr", ast))
             if len(expr_refs(ast)) >= 2:
@@ -145,6 +160,15 @@ def gen_graph(rng):
     if any(p != q and q.startswith(p) for p in declared for q in declared):
         feats.add("prefix")
     return nodes, feats
+
+
+def resolve_lit(nodes, name):
+    """the literal a chain of plain references ends in"""
+    byname = {x.name: x for x in nodes}
+    x = byname[name]
+    while x.kind == "ref":
+        x = byname[x.payload]
+    return x.payload
 
 
 def expected_values(nodes):
@@ -418,6 +442,9 @@ def run(ctx):
     ]
     for nodes in probes:
         cases.append((mk_case(rng, nodes, order=list(range(len(nodes))), placement=["root"] * len(nodes)), {"probe"}))
+    for nodes in ([Node("x", "lit", [5, 6]), Node("a", "expr", ("+", ("idx", "x", [0]), ("num", 1), " ")), Node("b", "expr", ("*", ("ref", "a"), ("num", 2), " ")), Node("xy", "ref", "a")],
+                  [Node("x", "lit", [5, 6]), Node("ab", "ref", "x"), Node("abc", "ref", "ab"), Node("a", "idx", ("abc", [1]))]):
+        cases.append((mk_case(rng, nodes, order=list(range(len(nodes))), placement=["root"] * len(nodes)), {"probe", "indexed"}))
     none_probe = mk_case(rng, [Node("a", "lit", None), Node("b", "ref", "a")], order=[0, 1], placement=["root", "root"])
     cases.append((none_probe, {"probe"}))
     for c, feats in cases:
